@@ -879,14 +879,15 @@ func TestPerm(t *testing.T) { pbt.Run(t, permSpec) }
 // ---------------------------------------------------------------- cli --
 
 type CliCase struct {
-	Cmd    string // histo | table
-	Sort   string
-	Keys   []pbt.S
-	Incs   [][]int64
-	Perms  [][]int
-	Files  int
-	Layout string
-	Obs    *pbt.Obs `json:"-"`
+	Cmd     string // histo | table
+	Sort    string
+	ColSort string `json:",omitempty"` // table: --sort-cols ("" = the same as --sort-rows)
+	Keys    []pbt.S
+	Incs    [][]int64
+	Perms   [][]int
+	Files   int
+	Layout  string
+	Obs     *pbt.Obs `json:"-"`
 }
 
 func cliSafe(k string, noSpace bool) bool {
@@ -1036,8 +1037,19 @@ func checkCli(c CliCase) error {
 		nArg := fmt.Sprint(len(keys) + 3)
 		switch c.Cmd {
 		case "table":
+			colSort := c.Sort
+			wantCols := want
+			if c.ColSort != "" {
+				// rows and columns ordered by different specifications: each axis follows its own
+				colSort = c.ColSort
+				wc, err := sortRows(colSort, arrival(keys, totals, smp, c.Perms[0]))
+				if err != nil {
+					return err
+				}
+				wantCols = wc
+			}
 			args := append([]string{"--nocolor", "--noformat", "table", "--snapshot", "-m", `^(\S+) (\S+) (\d+)$`, "-e", "{1}", "-e", "{2}", "-e", "{3}",
-				"--sort-rows", c.Sort, "--sort-cols", c.Sort, "--rows", nArg, "--cols", nArg}, paths...)
+				"--sort-rows", c.Sort, "--sort-cols", colSort, "--rows", nArg, "--cols", nArg}, paths...)
 			out, err := runRare(args)
 			if err != nil {
 				return err
@@ -1049,8 +1061,8 @@ func checkCli(c CliCase) error {
 			if !sameStrings(rows, namesOf(want)) {
 				return fmt.Errorf("rare table --sort-rows %s, arrival order #%d over %d file(s): row order\n got: %q\nwant: %q (library order of the same data)\noutput:\n%s", c.Sort, pi, files, rows, namesOf(want), pbt.Trunc(out, 1500))
 			}
-			if !sameStrings(cols, namesOf(want)) {
-				return fmt.Errorf("rare table --sort-cols %s, arrival order #%d over %d file(s): column order\n got: %q\nwant: %q (library order of the same data)\noutput:\n%s", c.Sort, pi, files, cols, namesOf(want), pbt.Trunc(out, 1500))
+			if !sameStrings(cols, namesOf(wantCols)) {
+				return fmt.Errorf("rare table --sort-rows %s --sort-cols %s, arrival order #%d over %d file(s): column order\n got: %q\nwant: %q (library order of the same data)\noutput:\n%s", c.Sort, colSort, pi, files, cols, namesOf(wantCols), pbt.Trunc(out, 1500))
 			}
 		default:
 			args := append([]string{"--nocolor", "--noformat", "histo", "--snapshot", "-m", `^(.*) (\d+)$`, "-e", "{1}", "-e", "{2}",
@@ -1090,6 +1102,14 @@ func genCli(t *rapid.T) CliCase {
 	c := CliCase{Obs: pbt.NewObs()}
 	c.Cmd = rapid.SampledFrom([]string{"histo", "histo", "table"}).Draw(t, "cmd")
 	c.Sort = genSortName(t)
+	if c.Cmd == "table" && rapid.Bool().Draw(t, "otherColSort") {
+		// the same mode in the other direction for the columns
+		if strings.Contains(c.Sort, ":") {
+			c.ColSort = modeOf(c.Sort)
+		} else {
+			c.ColSort = c.Sort + rapid.SampledFrom([]string{":reverse", ":desc", ":asc"}).Draw(t, "colmod")
+		}
+	}
 	keys, layout, incs := genData(t, c.Sort, 12, 1, 3)
 	// constructed for the command line: keep printable keys, re-spell the rest
 	var ks []string
